@@ -1,0 +1,36 @@
+//go:build verif
+
+package metautils
+
+// Contracts for the numeric range-index and time-range pruning kernels (C03):
+// pruning may only skip blocks that contain no matching record.
+// Checked by /verif/bin/govc.  Comment-only file.
+
+// keep(op, q, lo, hi) <=> some value v in [lo,hi] can satisfy `v op q`
+//@ spec keepI(op sutils.FilterOperator, q int64, lo int64, hi int64) bool = ite(op == sutils.Equals, lo <= q && q <= hi, ite(op == sutils.NotEquals, !(lo == hi && q == lo), ite(op == sutils.GreaterThan, q < hi, ite(op == sutils.GreaterThanOrEqualTo, q <= hi, ite(op == sutils.LessThan, q > lo, ite(op == sutils.LessThanOrEqualTo, q >= lo, true))))))
+//@ spec keepU(op sutils.FilterOperator, q uint64, lo uint64, hi uint64) bool = ite(op == sutils.Equals, lo <= q && q <= hi, ite(op == sutils.NotEquals, !(lo == hi && q == lo), ite(op == sutils.GreaterThan, q < hi, ite(op == sutils.GreaterThanOrEqualTo, q <= hi, ite(op == sutils.LessThan, q > lo, ite(op == sutils.LessThanOrEqualTo, q >= lo, true))))))
+//@ spec keepF(op sutils.FilterOperator, q float64, lo float64, hi float64) bool = ite(op == sutils.Equals, lo <= q && q <= hi, ite(op == sutils.NotEquals, !(lo == hi && q == lo), ite(op == sutils.GreaterThan, q < hi, ite(op == sutils.GreaterThanOrEqualTo, q <= hi, ite(op == sutils.LessThan, q > lo, ite(op == sutils.LessThanOrEqualTo, q >= lo, true))))))
+
+//@ func doesIntPassRangeFilter
+//@   props C03
+//@   requires minVal <= maxVal
+//@   ensures result == keepI(op, lookupValue, minVal, maxVal)
+//@   pure
+//@   safe
+//@ end
+
+//@ func doesUintPassRangeFilter
+//@   props C03
+//@   requires minVal <= maxVal
+//@   ensures result == keepU(op, lookupValue, minVal, maxVal)
+//@   pure
+//@   safe
+//@ end
+
+//@ func doesFloatPassRangeFilter
+//@   props C03
+//@   requires minVal <= maxVal && !isNaN(lookupValue)
+//@   ensures result == keepF(op, lookupValue, minVal, maxVal)
+//@   pure
+//@   safe
+//@ end
